@@ -248,7 +248,9 @@ def run(facts, R):
                                 dst = st["place"]["l"] if not st["place"]["p"] and "use" in st["rv"] else None
                                 moves[o["move"]["l"]].append((st.get("span"), dst))
                 t = bl["term"]
-                if t["k"] == "call":
+                if t["k"] == "call" and not t.get("inlined_future"):
+                    # (a guard handed to an `async fn` helper that was inlined at its await is still the caller's: the helper's
+                    # code, including where it drops the guard, is part of this body now)
                     for o in t["args"]:
                         if "move" in o and not o["move"]["p"] and o["move"]["l"] in moves:
                             moves[o["move"]["l"]].append((t.get("span"), None))
@@ -265,7 +267,8 @@ def run(facts, R):
             for y in yields(b):
                 if y in b.reachable((ri,)):
                     n += 1
-                    R.check(g in init_at_point(b, init, term_pt(b, y)), "pending-removed-on-abandon", b.path, "guard live across await #%d" % n,
+                    # (the guard may sit in the variable it was registered into or, later, in the one it was moved to)
+                    R.check(any(l_ in init_at_point(b, init, term_pt(b, y)) for l_ in gl), "pending-removed-on-abandon", b.path, "guard live across await #%d" % n,
                             "an await after registration is not covered by the PendingRequestGuard: cancelling there leaves the entry behind",
                             b.term(y).get("span"), "guard live")
             R.floor("pending-removed-on-abandon", n, 2, "await points after registration in " + b.path)
